@@ -111,6 +111,16 @@ impl U256 {
     }
     // self = self + 2^256 (mod `modulo`)
     pub(crate) fn add_carry(&mut self, modulo: &U256) {
+        #[cfg(john_yu_sm9_core_verif)]
+        {
+            // same loop, counted
+            crate::verif::tick();
+            while !self.0.sub_with_borrow(&modulo.0) {
+                crate::verif::tick();
+            }
+            return;
+        }
+        #[allow(unreachable_code)]
         while !self.0.sub_with_borrow(&modulo.0) {}
     }
     /// Add `other` to `self` (mod `modulo`)
@@ -227,11 +237,17 @@ impl U256 {
         let mut c = U256::zero();
 
         while !u.is_one() && !v.is_one() {
+            #[cfg(john_yu_sm9_core_verif)]
+            crate::verif::tick();
             while u.is_even() {
+                #[cfg(john_yu_sm9_core_verif)]
+                crate::verif::tick();
                 u.0.div2();
                 b.div2(modulo);
             }
             while v.is_even() {
+                #[cfg(john_yu_sm9_core_verif)]
+                crate::verif::tick();
                 v.0.div2();
                 c.div2(modulo);
             }
